@@ -2,16 +2,26 @@ import WebrtcVerif.Base.Wire
 import WebrtcVerif.Model.Ops
 /-! Driver handler for C05 (operations queue under a controlled schedule).
 
-  op:   run neg=<0|1> <thread spec>… sched <name>…
+  op:   run neg=<0|1|2> <thread spec>… sched <name>…
         thread specs (harness threads T0, T1, … in this order):
           E:<id>[.<child>…],<id>…   enqueuer: Enqueue each op in turn; an op's body enqueues its children
           D                         Done()
           C:<id>,…                  GracefulClose(), then Enqueue each listed op
-          F                         set updateNegotiationNeededFlagOnEmptyChain
-        neg=1: the onNegotiationNeeded callback enqueues op 900+k on its k-th call
+          F                         set updateNegotiationNeededFlagOnEmptyChain (a raw request)
+          N                         an API goroutine calling what PeerConnection.onNegotiationNeeded does:
+                                    IsEmpty(); (yield neg.tested); queue was non-empty → set the flag, else
+                                    Enqueue the next check op
+        neg=0: the worker's onNegotiationNeeded callback does nothing
+        neg=1: it enqueues the next check op
+        neg=2: it does what PeerConnection.onNegotiationNeeded does (as thread kind N)
+        check ops have the ids 901, 902, … in order of creation
         sched: thread names (T<i> / W<k>) to release one segment at a time; afterwards every thread is
         drained in a fixed order (Sched.Drain).
-  out:  <name:result>… / <drain name:result>… | <log: o<id> d<k> c<k>>… | neg <n> | <name:state>…
+  out:  <name:result>… / <drain name:result>… | <log>… | neg <n> flag <0|1> empty <0|1> | <name:state>…
+        log: o<id> op body started, d<k> Done returned, c<k> GracefulClose returned,
+             ne / nb the worker's callback (neg=2) found the queue empty / busy, ae / ab an API goroutine did,
+             f@<i> raw flag store (these five are requests), ns@<i> / as@<i> the worker's callback / an API
+             goroutine stored the flag; <i> = index of the step (event) in which the store happened
 
   The simulator below maps every released segment to core `Ops.step` actions — it never changes the core
   state in any other way, so every simulated run is a `Reachable` run of the proved transition system.
@@ -26,6 +36,7 @@ inductive TPc
   | close0 (k : Nat) (post : List Nat) | closeWait (k : Nat) (post : List Nat)
   | closeWoke (k : Nat) (post : List Nat)
   | flag0
+  | neg0 (n : Nat) | negTested (n : Nat)
   | fin
   deriving Repr, DecidableEq
 
@@ -36,7 +47,8 @@ structure Sim where
   wchild : List (List Nat) := []      -- per worker: children the running op still has to enqueue
   log : List String := []
   children : List (Nat × List Nat) := []
-  negEnq : Bool := false
+  mode : NegMode := .none
+  stepNo : Nat := 0                   -- number of completed `Step`s (index of the current one)
   deriving Repr
 
 def childrenOf (sim : Sim) (id : Nat) : List Nat :=
@@ -47,11 +59,13 @@ def childrenOf (sim : Sim) (id : Nat) : List Nat :=
 /-- apply a core action; a disabled action leaves the state unchanged (the simulator only issues
     enabled ones, except `enqueue` of an id that was already accepted, which programs never do) -/
 def act (sim : Sim) (a : Action) : Sim :=
-  match step sim.core a with
+  match step sim.mode sim.core a with
   | some c => { sim with core := c }
   | none => sim
 
-def enabled (sim : Sim) (a : Action) : Bool := (step sim.core a).isSome
+def enabled (sim : Sim) (a : Action) : Bool := (step sim.mode sim.core a).isSome
+
+def addLog (sim : Sim) (e : String) : Sim := { sim with log := sim.log ++ [e] }
 
 def setT (sim : Sim) (i : Nat) (pc : TPc) (bl : Bool := false) : Sim :=
   { sim with tpcs := sim.tpcs.set i pc, tblocked := sim.tblocked.set i bl }
@@ -104,7 +118,16 @@ def segT (sim : Sim) (i : Nat) : TPc → String × Sim
       match sim.core.closers[k]? with
       | some (.waiting _) => ("ops.idle.wait", setT sim i (.closeWait k post))
       | _ => closeReturned sim i k post
-  | .flag0 => ("fin", setT (act sim .setFlag) i .fin)
+  | .flag0 => ("fin", setT (addLog (act sim .setFlag) s!"f@{sim.stepNo}") i .fin)
+  | .neg0 n =>
+      let sim := act sim (.negTest n)
+      match sim.core.callers[n]? with
+      | some (.tested e) => ("neg.tested", setT (addLog sim (if e then "ae" else "ab")) i (.negTested n))
+      | _ => ("fin", setT sim i .fin)
+  | .negTested n =>
+      let stored := sim.core.callers[n]? == some (NPc.tested false)
+      let sim := act sim (.negAct n)
+      ("fin", setT (if stored then addLog sim s!"as@{sim.stepNo}" else sim) i .fin)
 
 /-- `Step` on harness thread `i` -/
 def stepT (sim : Sim) (i : Nat) : String × Sim :=
@@ -140,6 +163,7 @@ def stepW (sim : Sim) (w : Nat) : String × Sim :=
       let sim := act sim (.exec w)
       match it with
       | .waiter _ => popW sim w
+      | .check k => popW (addLog sim s!"o{901 + k}") w
       | .op id =>
         let sim := { sim with log := sim.log ++ [s!"o{id}"] }
         match childrenOf sim id with
@@ -152,10 +176,22 @@ def stepW (sim : Sim) (w : Nat) : String × Sim :=
         let sim := act sim (.enqueue (.op c))
         if cs.isEmpty then popW (setWchild sim w []) w else ("op.child", setWchild sim w cs)
   | some (.popped none) =>
-      let hadFlag := sim.core.flag
+      -- Load; if set: Store(false), callback (modes 0/1: returns; mode 2: up to its yield after IsEmpty())
       let sim := act sim (.afterLoop w)
-      let sim := if hadFlag && sim.negEnq then act sim (.enqueue (.op (900 + sim.core.negCalls))) else sim
-      ("ops.defer", sim)
+      match sim.core.workers[w]? with
+      | some .loaded =>
+          let sim := act (act sim (.clearFlag w)) (.cbBegin w)
+          match sim.core.workers[w]? with
+          | some (.cb e) => ("neg.tested", addLog sim (if e then "ne" else "nb"))
+          | _ => ("ops.defer", sim)
+      | _ => ("ops.defer", sim)
+  | some (.cb e) =>
+      let sim := act sim (.cbAct w)
+      ("ops.defer", if e then sim else addLog sim s!"ns@{sim.stepNo}")
+  -- never left in these states between two segments (no yield point there)
+  | some .loaded => ("skip", sim)
+  | some .cleared => ("skip", sim)
+  | some .cbDone => ("skip", sim)
   | some .defer_ => ("fin", act sim (.deferred w))
 
 def parseName (n : String) : Option (Bool × Nat) :=
@@ -165,10 +201,11 @@ def parseName (n : String) : Option (Bool × Nat) :=
   | _ => none
 
 def stepName (sim : Sim) (n : String) : String × Sim :=
-  match parseName n with
-  | some (true, i) => stepT sim i
-  | some (false, w) => stepW sim w
-  | none => ("skip", sim)
+  let (r, sim') := match parseName n with
+    | some (true, i) => stepT sim i
+    | some (false, w) => stepW sim w
+    | none => ("skip", sim)
+  (r, { sim' with stepNo := sim'.stepNo + 1 })
 
 def allNames (sim : Sim) : List String :=
   (List.range sim.tpcs.length).map (fun i => s!"T{i}") ++ (List.range sim.core.workers.length).map (fun k => s!"W{k}")
@@ -219,18 +256,25 @@ def parseOpSpec (s : String) : Option (Nat × List Nat) :=
 def commaList (s : String) : List String := (s.splitOn ",").filter (· ≠ "")
 
 structure Prog where
-  negEnq : Bool
+  mode : NegMode
   specs : List String
   sched : List String
+
+def parseMode : String → Option NegMode
+  | "neg=0" => some .none
+  | "neg=1" => some .enqueue
+  | "neg=2" => some .rearm
+  | _ => none
 
 def parseProg (args : List String) : Option Prog :=
   match args with
   | neg :: rest =>
-    let negEnq := neg == "neg=1"
-    if neg != "neg=1" && neg != "neg=0" then none else
-    let specs := rest.takeWhile (· ≠ "sched")
-    let sched := (rest.dropWhile (· ≠ "sched")).drop 1
-    some { negEnq, specs, sched }
+    match parseMode neg with
+    | none => none
+    | some mode =>
+      let specs := rest.takeWhile (· ≠ "sched")
+      let sched := (rest.dropWhile (· ≠ "sched")).drop 1
+      some { mode, specs, sched }
   | _ => none
 
 def initSim (p : Prog) : Option Sim := do
@@ -238,6 +282,7 @@ def initSim (p : Prog) : Option Sim := do
   let mut children : List (Nat × List Nat) := []
   let mut nd := 0
   let mut nc := 0
+  let mut nn := 0
   for sp in p.specs do
     match sp.toList with
     | 'E' :: ':' :: r =>
@@ -249,8 +294,9 @@ def initSim (p : Prog) : Option Sim := do
         let post ← (commaList (String.ofList r)).mapM String.toNat?
         tpcs := tpcs ++ [.close0 nc post]; nc := nc + 1
     | ['F'] => tpcs := tpcs ++ [.flag0]
+    | ['N'] => tpcs := tpcs ++ [.neg0 nn]; nn := nn + 1
     | _ => none
-  pure { core := Ops.init nc nd, tpcs, tblocked := tpcs.map (fun _ => false), children, negEnq := p.negEnq }
+  pure { core := Ops.init nc nd nn, tpcs, tblocked := tpcs.map (fun _ => false), children, mode := p.mode }
 
 def stateOf (sim : Sim) (n : String) : String :=
   if isFinished sim n then s!"{n}:fin" else if isBlocked sim n then s!"{n}:blocked" else s!"{n}:parked"
@@ -268,7 +314,9 @@ def run (args : List String) : String :=
           let (r, s') := stepName acc.1 n
           (s', acc.2 ++ [s!"{n}:{r}"])) (sim0, [])
         let (sim2, ev2) := drain 200 sim1 []
-        String.intercalate " " (ev1 ++ ["/"] ++ ev2 ++ ["|"] ++ sim2.log ++ ["|", "neg", toString sim2.core.negCalls, "|"]
+        let b01 (b : Bool) : String := if b then "1" else "0"
+        String.intercalate " " (ev1 ++ ["/"] ++ ev2 ++ ["|"] ++ sim2.log ++ ["|", "neg", toString sim2.core.negCalls,
+            "flag", b01 sim2.core.flag, "empty", b01 sim2.core.queue.isEmpty, "|"]
           ++ (allNames sim2).map (stateOf sim2))
   | _ => "bad-op"
 
@@ -287,11 +335,26 @@ def ascending : List Nat → Bool
 
 def idxOf (l : List String) (x : String) : Option Nat := l.findIdx? (· == x)
 
+/-- index of the last event in which a worker passed the flag test at the end of its chain: a worker event
+    `neg.tested`, or `ops.defer` not preceded (for that worker) by `neg.tested` -/
+def lastChainEnd (ev : List (String × String)) : Option Nat :=
+  let rec go (l : List (String × String)) (i : Nat) (prev : List (String × String)) (acc : Option Nat) : Option Nat :=
+    match l with
+    | [] => acc
+    | (n, r) :: rest =>
+      if n.startsWith "W" then
+        let p := (prev.find? (·.1 == n)).map (·.2)
+        let isEnd := r == "neg.tested" || (r == "ops.defer" && p != some "neg.tested")
+        let prev' := (n, r) :: prev.filter (·.1 != n)
+        go rest (i + 1) prev' (if isEnd then some i else acc)
+      else go rest (i + 1) prev acc
+  go ev 0 [] none
+
 def judge (args out : List String) : String :=
   match args with
   | "run" :: rest =>
     match parseProg rest, splitBar out with
-    | some p, [evs, log, _neg, states] =>
+    | some p, [evs, log, negGrp, states] =>
       let ev := eventsOf evs
       -- thread kinds
       let kinds := p.specs
@@ -362,7 +425,36 @@ def judge (args out : List String) : String :=
           | _, _ => false)
       if doneBad then "violated done-returned-early" else
       let _ := firstC
-      "ok"
+      -- J6: negotiation-needed requests (only judged on a run that came to rest with the queue open:
+      -- every thread finished, no GracefulClose in the program)
+      let atRest := !hasCloser && states.all (fun s => s.endsWith ":fin")
+      match negGrp with
+      | ["neg", negCalls, "flag", flag, "empty", empty] =>
+        if atRest && empty != "1" then "violated accepted-op-never-ran queue-not-empty" else
+        let isCheck (t : String) : Bool := t.startsWith "o" && (((t.drop 1).toString.toNat?).getD 0) ≥ 900
+        let isReq (t : String) : Bool := t.startsWith "f@" || t == "nb" || t == "ne" || t == "ab" || t == "ae"
+        -- every check closure that was queued ran (exactly once: J1 covers "twice")
+        let queued := (log.filter (fun t => t == "ne" || t == "ae")).length + (if p.mode == .enqueue then negCalls.toNat?.getD 0 else 0)
+        if atRest && (log.filter isCheck).length != queued then "violated accepted-op-never-ran check" else
+        -- a request is never lost: at rest with the flag clear, the last request is followed by a check run
+        let negEvents := log.filter (fun t => isCheck t || isReq t)
+        let owed := match negEvents.getLast? with | some t => isReq t | none => false
+        if atRest && p.mode != .none && flag == "0" && owed then "violated negotiation-request-lost" else
+        -- a flag still set at rest was stored after every end of chain (nobody saw it and left it standing)
+        let allFin := states.all (fun s => s.endsWith ":fin")
+        let storeIdx (t : String) : Option Nat :=
+          if t.startsWith "f@" || t.startsWith "as@" || t.startsWith "ns@" then
+            match t.splitOn "@" with | [_, k] => k.toNat? | _ => none
+          else none
+        let lastStore := (log.filterMap storeIdx).foldl (fun (m : Option Nat) x => some (match m with | none => x | some y => max x y)) none
+        let lastLoad := lastChainEnd ev
+        let ignored := match lastLoad, lastStore with
+          | some l, some s => l > s
+          | some _, none => true
+          | none, _ => false
+        if allFin && flag == "1" && ignored then "violated negotiation-flag-ignored" else
+        "ok"
+      | _ => "bad-judge"
     | _, _ => "bad-judge"
   | _ => "bad-judge"
 
